@@ -3,15 +3,13 @@
   accounting of the two statement kinds that implement `ExecutableQuery` (`Query.attempt`, `Batch.attempt`,
   `queryMetrics.attempt` in /repo/session.go) and of the built-in retry policies' decision functions in
   /repo/policies.go.
+
+  The hosts' usability is an ENVIRONMENT that may change during one execution: `us k h` = host `h` is usable
+  (HostInfo present and up, pool registered, Pick() returns a connection) when `k` requests have been sent.
+  The loop head re-examines the selected host every time round, so a `Retry` on a host that has gone walks on
+  along the iterator, and the error returned when nothing usable is left is the one recorded last.
 -/
 namespace Executor
-
-/-- a host as offered by the host iterator, with what `do` looks at -/
-structure Host where
-  id : Nat
-  up : Bool          -- the SelectedHost carries a HostInfo and host.IsUp()
-  conn : Bool        -- the pool exists (`getPool`) and Pick() returns a connection
-deriving DecidableEq, Repr
 
 /-- result of one attempt (`iter.err` classes) -/
 inductive Res where
@@ -66,7 +64,7 @@ deriving DecidableEq, Repr
 
 inductive Final where
   | last (r : Res)         -- the iter of the last attempt is returned
-  | lastErr (kind : Nat)   -- hosts exhausted: `&Iter{err: lastErr}`
+  | lastErr (kind : Nat) (idx : Nat)   -- hosts exhausted: `&Iter{err: lastErr}`; `idx` = number of the request whose error it is
   | noConnections          -- hosts exhausted, nothing attempted
   | unknownRetryType
   | outOfFuel              -- model artefact: the policy never stops (the real loop would not either)
@@ -82,26 +80,34 @@ deriving DecidableEq, Repr
 /-- the attempt `a` came before what `o` describes -/
 def Out.push (o : Out) (a : Att) : Out := { o with attempts := a :: o.attempts }
 
-/-- next usable host from the iterator: down hosts and hosts without a connection are skipped
-    (without consuming retry budget); returns the host and the remaining sequence -/
-def nextUsable : List Host → Option (Host × List Host)
+/-- the loop head of `do`: starting with the selected host, take hosts from the iterator until one is usable
+    NOW (`selectedHost.Info() != nil && host.IsUp()`, `getPool` finds its pool, `pool.Pick()` returns a
+    connection); unusable hosts are skipped without consuming retry budget. `pending` = the selected host
+    followed by what the iterator will still offer; the result is the host to attempt and what remains. -/
+def nextUsable (u : Nat → Bool) : List Nat → Option (Nat × List Nat)
   | [] => none
-  | h :: hs => if h.up && h.conn then some (h, hs) else nextUsable hs
+  | h :: hs => if u h then some (h, hs) else nextUsable u hs
 
-/-- `queryExecutor.do`. `outcome k` is the result of the k-th request that reaches a server (0-based, counted
-    over the life of the scenario), `cnt` the statement's attempt counter (`qry.Attempts()`, the state the
-    retry policies read), `cons` its consistency level. `cur` = currently selected host (already known
-    usable), `rest` = what the iterator will still offer, `lastErr` = the error of the previous attempt. -/
-def doLoop (req : Req) (pol : Option Policy) (outcome : Nat → Res) :
-    Nat → Option Host → List Host → Nat → Nat → Nat → Option Nat → Out
-  | 0, _, _, _, cnt, cons, _ => ⟨[], .outOfFuel, cnt, cons⟩
-  | _+1, none, _, _, cnt, cons, lastErr =>
+/-- `queryExecutor.do` in a CHANGING environment. `outcome k` is the result of the k-th request that reaches a
+    server (0-based, counted over the life of the scenario); `us k h` says whether host `h` is usable when `k`
+    requests have been sent — the environment may change arbitrarily between one attempt and the next loop head
+    (host marked down / up again, pool removed or closed, connections lost, pool re-created), so the host of a
+    failed attempt may be gone when the policy answers `Retry`. `cnt` = the statement's attempt counter
+    (`qry.Attempts()`, the state the retry policies read), `cons` its consistency level, `pending` = the
+    selected host followed by the rest of the iterator's output, `lastErr` = `(kind, request number)` of the
+    error recorded by `lastErr = iter.err`. One unit of fuel = one attempt. -/
+def doLoop (req : Req) (pol : Option Policy) (outcome : Nat → Res) (us : Nat → Nat → Bool) :
+    Nat → List Nat → Nat → Nat → Nat → Option (Nat × Nat) → Out
+  | 0, _, _, cnt, cons, _ => ⟨[], .outOfFuel, cnt, cons⟩
+  | fuel+1, pending, k, cnt, cons, lastErr =>
+    match nextUsable (us k) pending with
+    | none =>
       match lastErr with
-      | some k => ⟨[], .lastErr k, cnt, cons⟩
+      | some (e, j) => ⟨[], .lastErr e j, cnt, cons⟩
       | none => ⟨[], .noConnections, cnt, cons⟩
-  | fuel+1, some h, rest, k, cnt, cons, _ =>
+    | some (h, rest) =>
       let r := outcome k
-      let a : Att := ⟨h.id, cnt, cons, r⟩
+      let a : Att := ⟨h, cnt, cons, r⟩
       let cnt' := req.record cnt
       match r with
       | .logical => ⟨[a], .last r, cnt', cons⟩
@@ -114,21 +120,18 @@ def doLoop (req : Req) (pol : Option Policy) (outcome : Nat → Res) :
           else
             let cons' := (p.newCons cnt').getD cons
             match p.rtype e with
-            | .retry => (doLoop req pol outcome fuel (some h) rest (k+1) cnt' cons' (some e)).push a
+            -- `continue` with the same selectedHost: it is re-examined at the loop head
+            | .retry => (doLoop req pol outcome us fuel (h :: rest) (k+1) cnt' cons' (some (e, k))).push a
             | .rethrow => ⟨[a], .last r, cnt', cons'⟩
             | .ignore => ⟨[a], .last r, cnt', cons'⟩
-            | .nextHost =>
-                match nextUsable rest with
-                | some (h', rest') => (doLoop req pol outcome fuel (some h') rest' (k+1) cnt' cons' (some e)).push a
-                | none => (doLoop req pol outcome fuel none [] (k+1) cnt' cons' (some e)).push a
+            -- `selectedHost = hostIter(); continue`
+            | .nextHost => (doLoop req pol outcome us fuel rest (k+1) cnt' cons' (some (e, k))).push a
             | .unknown => ⟨[a], .unknownRetryType, cnt', cons'⟩
 
-/-- `do` from the start: select the first usable host -/
-def doQuery (req : Req) (pol : Option Policy) (outcome : Nat → Res) (fuel : Nat) (hosts : List Host)
-    (k cnt cons : Nat) : Out :=
-  match nextUsable hosts with
-  | some (h, rest) => doLoop req pol outcome fuel (some h) rest k cnt cons none
-  | none => doLoop req pol outcome fuel none [] k cnt cons none
+/-- `do` from the start: `ids` = what the host iterator offers, in order -/
+def doQuery (req : Req) (pol : Option Policy) (outcome : Nat → Res) (us : Nat → Nat → Bool) (fuel : Nat)
+    (ids : List Nat) (k cnt cons : Nat) : Out :=
+  doLoop req pol outcome us fuel ids k cnt cons none
 
 /-- one execution of a statement through `Session.executeQuery` / `Session.executeBatch`, including the case of
     a context that is already done when the execution starts: `Conn.exec` then returns `ctx.Err()` before
@@ -139,15 +142,56 @@ structure Run where
   ctxDone : Bool           -- the statement's context is done afterwards
 deriving DecidableEq, Repr
 
-def execute (req : Req) (pol : Option Policy) (outcome : Nat → Res) (fuel : Nat) (hosts : List Host)
-    (k cnt cons : Nat) (ctxDone : Bool) : Run :=
+def execute (req : Req) (pol : Option Policy) (outcome : Nat → Res) (us : Nat → Nat → Bool) (fuel : Nat)
+    (ids : List Nat) (k cnt cons : Nat) (ctxDone : Bool) : Run :=
   if ctxDone then
-    match nextUsable hosts with
-    | some (h, _) => ⟨⟨[⟨h.id, cnt, cons, .logical⟩], .last .logical, req.record cnt, cons⟩, [], true⟩
+    match nextUsable (us k) ids with
+    | some (h, _) => ⟨⟨[⟨h, cnt, cons, .logical⟩], .last .logical, req.record cnt, cons⟩, [], true⟩
     | none => ⟨⟨[], .noConnections, cnt, cons⟩, [], true⟩
   else
-    let out := doQuery req pol outcome fuel hosts k cnt cons
+    let out := doQuery req pol outcome us fuel ids k cnt cons
     ⟨out, out.attempts, decide (out.final = .last .logical)⟩
+
+/-! ### a scripted environment: hosts whose usability is changed between attempts -/
+
+/-- a host of the scenario with what `do` looks at -/
+structure Host where
+  id : Nat
+  up : Bool          -- the SelectedHost carries a HostInfo and host.IsUp()
+  conn : Bool        -- the pool exists (`getPool`) and Pick() returns a connection
+deriving DecidableEq, Repr
+
+/-- what can happen to a host between two attempts -/
+inductive EnvAct where
+  | markDown     -- HostInfo state := NodeDown (a DOWN event / a conviction reaching handleNodeDown)
+  | markUp       -- HostInfo state := NodeUp
+  | poolGone     -- the host's pool is removed from the session's pool map, or closed, or has lost its connections
+  | poolBack     -- the pool is re-created and connected (`addHost`; `handleNodeConnected` also marks the host up)
+deriving DecidableEq, Repr
+
+def EnvAct.apply (a : EnvAct) (h : Host) : Host :=
+  match a with
+  | .markDown => { h with up := false }
+  | .markUp => { h with up := true }
+  | .poolGone => { h with conn := false }
+  | .poolBack => { h with up := true, conn := true }
+
+def applyActs (acts : List (EnvAct × Nat)) (w : List Host) : List Host :=
+  acts.foldl (fun w (a : EnvAct × Nat) => w.map fun h => if h.id = a.2 then a.1.apply h else h) w
+
+/-- the hosts after the actions scripted for requests `0 .. k-1` -/
+def worldAt (w0 : List Host) (script : Nat → List (EnvAct × Nat)) : Nat → List Host
+  | 0 => w0
+  | k+1 => applyActs (script k) (worldAt w0 script k)
+
+def usableIn (w : List Host) (h : Nat) : Bool :=
+  match w.find? (fun x => x.id == h) with
+  | some x => x.up && x.conn
+  | none => false
+
+/-- the usability function of a scripted environment -/
+def usOf (w0 : List Host) (script : Nat → List (EnvAct × Nat)) : Nat → Nat → Bool :=
+  fun k h => usableIn (worldAt w0 script k) h
 
 /-! ### built-in policies (policies.go) -/
 
